@@ -274,12 +274,12 @@ def run(tier, workers=None):
     else:
         for kind in ("tree", "bare"):
             for ops in PAIRS:
-                jobs.append((kind, "processes", ops, 3 if kind == "tree" else 2, 2500))
-                jobs.append((kind, "threads", ops, 2, 2500))
+                jobs.append((kind, "processes", ops, 3 if kind == "tree" else 2, 1500))
+                jobs.append((kind, "threads", ops, 2, 1500))
             for ops in TRIPLES:
-                jobs.append((kind, "processes", ops, 2, 2500))
+                jobs.append((kind, "processes", ops, 2, 1500))
         for ops in PAIRS[:8]:
-            jobs.append(("mem", "threads", ops, 2, 2500))
+            jobs.append(("mem", "threads", ops, 2, 1500))
     ctx = mp.get_context("fork")
     with ctx.Pool(nw, maxtasksperchild=4) as pool:
         results = pool.map(_scenario, jobs, chunksize=1)
